@@ -107,6 +107,21 @@ fn documents(max_members: usize) -> Vec<String> {
             docs.push(format!("{{{}}}", parts.join(",")));
         }
     }
+    // the same documents laid out generously (what is written back is shorter than what was there):
+    // indented with eight spaces per level, and with a long run of trailing white space
+    let compact = docs.clone();
+    for d in &compact {
+        if let Ok(v) = serde_json::from_str::<Value>(d) {
+            let mut buf = Vec::new();
+            let fmt = serde_json::ser::PrettyFormatter::with_indent(b"        ");
+            let mut ser = serde_json::Serializer::with_formatter(&mut buf, fmt);
+            if serde::Serialize::serialize(&v, &mut ser).is_ok() {
+                // (re-serialising loses nothing the comparison looks at: it is by JSON value)
+                docs.push(String::from_utf8(buf).unwrap_or_default() + "\n\n");
+            }
+        }
+        docs.push(format!("{}{}\n", d, " ".repeat(3000)));
+    }
     docs
 }
 
@@ -220,6 +235,39 @@ fn roundtrip_case(doc_text: &str, settings_idx: usize) -> Vec<Violation> {
         Ok(None) => vs.push(mk("settings-roundtrip", "no typegen section found after saving".into())),
         Err(e) => vs.push(mk("settings-roundtrip", format!("reading back failed: {}", e))),
     }
+    // a second write over the first one, with the other settings objects (longer and shorter ones)
+    for step in 1..3 {
+        let other = &settings_variants(&proj.to_string_lossy())[(settings_idx + step) % 3];
+        if other.save_to_tauri_config(&path).is_err() {
+            continue;
+        }
+        let text = std::fs::read_to_string(&path).unwrap_or_default();
+        match serde_json::from_str::<Value>(&text) {
+            Err(e) => {
+                vs.push(mk("document-corrupted", format!("after writing settings #{} over settings #{} the file is not JSON: {}", (settings_idx + step) % 3, (settings_idx + step - 1) % 3, e)));
+                break;
+            }
+            Ok(doc2) => {
+                let mut want = without_typegen(&original);
+                if want.get("plugins").is_none() {
+                    if let Some(m) = want.as_object_mut() {
+                        m.insert("plugins".into(), json!({}));
+                    }
+                }
+                if without_typegen(&doc2) != want {
+                    vs.push(mk("other-keys-changed", format!("after a second write the document minus plugins.typegen is {}", without_typegen(&doc2))));
+                    break;
+                }
+                match GenerateConfig::from_tauri_config(&path) {
+                    Ok(Some(back)) if persisted(&back) == persisted(other) => {}
+                    _ => {
+                        vs.push(mk("settings-roundtrip", format!("second write: settings #{} do not read back", (settings_idx + step) % 3)));
+                        break;
+                    }
+                }
+            }
+        }
+    }
     vs
 }
 
@@ -267,8 +315,16 @@ fn project_path_of(v: &str) -> &'static str {
     match v {
         "alt" => P_ALT,
         "missing" => "./missing-dir",
+        // does not exist either, but looking it up fails with something other than "not found"
+        "through-file" => "./src-tauri/src/lib.rs/sub",
+        "long-name" => LONG_NAME.get_or_init(|| format!("./src-tauri/{}", "m".repeat(300))).as_str(),
         _ => P_DEFAULT,
     }
+}
+static LONG_NAME: std::sync::OnceLock<String> = std::sync::OnceLock::new();
+
+fn is_missing_project(path: &str) -> bool {
+    path == "./missing-dir" || path == project_path_of("through-file") || path == project_path_of("long-name")
 }
 
 fn file_json(src: Source, f: &FileVals) -> String {
@@ -387,13 +443,13 @@ pub fn eval_prec(c: &PrecCase) -> (Vec<Violation>, u64, String) {
     let w = setup_sandbox(&sb, c);
     let eff = effective(c);
     let invalid_validation = !matches!(eff.validation.as_str(), "zod" | "none");
-    let invalid_project = eff.project == "./missing-dir";
+    let invalid_project = is_missing_project(&eff.project);
     let mk = |class: &str, detail: String| {
         let mut inval = vec![];
         if c.file.validation.as_deref() == Some("yup") {
             inval.push("file.validation");
         }
-        if c.file.project.as_deref() == Some("missing") {
+        if c.file.project.as_deref().is_some_and(|p| is_missing_project(project_path_of(p))) {
             inval.push("file.project");
         }
         Violation::new("C19", class, format!("{:?} flags {:05b} (args {:?}; file {}): {}", c.source, c.flags, args_for(c), file_json(c.source, &c.file), detail), json!({"kind":"precedence","case":c}))
@@ -528,7 +584,7 @@ pub fn eval_init(c: &InitCase) -> (Vec<Violation>, String) {
         "explicit-tauri" => ("alt-proj/tauri.conf.json".into(), true),
         _ => (format!("{}/tauri.conf.json", project.trim_start_matches("./")), true),
     };
-    let invalid: Option<String> = if project == "./missing-dir" {
+    let invalid: Option<String> = if is_missing_project(project) {
         Some("project path does not exist".into())
     } else if !matches!(validation.as_str(), "zod" | "none") {
         Some(format!("validation library {:?}", validation))
@@ -542,7 +598,7 @@ pub fn eval_init(c: &InitCase) -> (Vec<Violation>, String) {
             .field("part", "init")
             .field("plugins", "-")
             .field("source", format!("init:{}", c.out))
-            .field("invalid_in_file", invalid.clone().map(|_| match (project == "./missing-dir", !matches!(validation.as_str(), "zod" | "none")) { (true, _) => "project", (_, true) => "validation", _ => "exists" }.to_string()).unwrap_or("-".into()))
+            .field("invalid_in_file", invalid.clone().map(|_| match (is_missing_project(project), !matches!(validation.as_str(), "zod" | "none")) { (true, _) => "project", (_, true) => "validation", _ => "exists" }.to_string()).unwrap_or("-".into()))
             .field("flags", format!("p={:?} g={} v={:?}", c.project, c.generated, c.validation))
             .rank(init_args(c).len() as u64)
     };
@@ -641,7 +697,7 @@ pub fn run(tier: Tier) -> CheckResult {
     let sources: Vec<Source> = if false { vec![Source::NoFile, Source::CwdTauriConf, Source::ExplicitConfig] } else { vec![Source::NoFile, Source::CwdTauriConf, Source::SrcTauriConf, Source::ParentTauriConf, Source::ExplicitConfig] };
     let s = |x: &str| Some(x.to_string());
     let mut single_field_files: Vec<FileVals> = vec![FileVals::default()];
-    for p in ["default-dir", "alt", "missing"] {
+    for p in ["default-dir", "alt", "missing", "through-file", "long-name"] {
         single_field_files.push(FileVals { project: s(p), ..Default::default() });
     }
     for o in ["file1", "file2"] {
@@ -703,7 +759,7 @@ pub fn run(tier: Tier) -> CheckResult {
     }
     // ---- part C
     let mut icases: Vec<InitCase> = vec![];
-    for project in [None, Some("alt"), Some("missing")] {
+    for project in [None, Some("alt"), Some("missing"), Some("through-file"), Some("long-name")] {
         for generated in [false, true] {
             for validation in [None, Some("zod"), Some("none"), Some("yup")] {
                 for out in ["default", "custom-new", "custom-existing", "custom-existing-force", "explicit-tauri"] {
@@ -750,7 +806,7 @@ pub fn run(tier: Tier) -> CheckResult {
     res.coverage.set("distinct_outcomes", outcomes.len() as u64);
     res.coverage.set("exhaustive", exhaustive);
     res.coverage.set("samples", json!([docs[docs.len() / 3], docs[docs.len() - 2], pcases[pcases.len() / 2]]));
-    res.coverage.set("rule", "Part A (in process): JSON documents with 0..3 (quick) / 0..4 (thorough) extra top-level members whose values range over the i64/u64 extremes, decimals, exponents, -0.0, escaped and non-ASCII strings, nested arrays/objects (also as one-level objects), crossed with seven shapes of the plugins section (absent, empty, other plugins, existing typegen entry, typegen entry with unknown keys, null entries, typegen entry carrying every optional setting) at varying key positions, crossed with three settings objects; save_to_tauri_config then: document minus plugins.typegen is value-equal to the original, and from_tauri_config returns the persisted settings. Part B (real binary): for each configuration source (none, the discovered tauri.conf.json locations, --config file) every single-field file (absent / valid values / invalid value) x all 32 flag subsets, plus multi-field files x 11 flag subsets, plus value flags spelled with the built-in default values against files that say otherwise; effective setting = first-defined(flag, file, default), observed through which directory receives output, which project's command is wrapped, the Generator header line, verbose output, regeneration over a matching cache; invalid effective library / missing project path => non-zero exit and an unchanged sandbox tree. Part C (real binary, `init`): -p {default, other, missing} x -g given or not x -v {absent, zod, none, unsupported} x -o {default tauri.conf.json in the project, new standalone file, existing standalone file without / with --force, explicit tauri.conf.json elsewhere}; an unsupported library, a missing project path or an existing standalone file without --force => non-zero exit and an unchanged sandbox tree; otherwise exit 0, only the configuration file and the output directory change, the file reads back as the settings given, every other key of a tauri.conf.json survives, and the initial generation used the same settings.");
+    res.coverage.set("rule", "Part A (in process): JSON documents with 0..3 (quick) / 0..4 (thorough) extra top-level members whose values range over the i64/u64 extremes, decimals, exponents, -0.0, escaped and non-ASCII strings, nested arrays/objects (also as one-level objects), crossed with seven shapes of the plugins section (absent, empty, other plugins, existing typegen entry, typegen entry with unknown keys, null entries, typegen entry carrying every optional setting) at varying key positions, each also laid out with eight-space indentation and with 3000 trailing blanks (so that what is written back is shorter than what was there), crossed with three settings objects, each followed by writing the other two over it; save_to_tauri_config then: document minus plugins.typegen is value-equal to the original, and from_tauri_config returns the persisted settings. Part B (real binary): for each configuration source (none, the discovered tauri.conf.json locations, --config file) every single-field file (absent / valid values / invalid value) x all 32 flag subsets, plus multi-field files x 11 flag subsets, plus value flags spelled with the built-in default values against files that say otherwise; effective setting = first-defined(flag, file, default), observed through which directory receives output, which project's command is wrapped, the Generator header line, verbose output, regeneration over a matching cache; invalid effective library / missing project path => non-zero exit and an unchanged sandbox tree. Part C (real binary, `init`): -p {default, other, missing, a path through a regular file, a path with a 300-character component} x -g given or not x -v {absent, zod, none, unsupported} x -o {default tauri.conf.json in the project, new standalone file, existing standalone file without / with --force, explicit tauri.conf.json elsewhere}; an unsupported library, a missing project path or an existing standalone file without --force => non-zero exit and an unchanged sandbox tree; otherwise exit 0, only the configuration file and the output directory change, the file reads back as the settings given, every other key of a tauri.conf.json survives, and the initial generation used the same settings.");
     res.assumptions = vec!["integers outside the i64/u64 range are not part of the document alphabet (serde_json reads them as floats)".into()];
     res
 }
